@@ -562,6 +562,39 @@ def invalid_lists(ctx):
                 if not msgs:
                     rec.violation(f"C17:invalid-list-accepted:{o['operation']}:{kind}", ops=lst)
                 rec.outcome("invalid-reported")
+    # faults that pass the JSON-schema stage and are caught by the operation's own check of its parameters, at every position
+    # of a list that also holds a sound operation of the same type
+    data_faults = [
+        ("factor-names-length", op("factor_column", column_name="trial_type", factor_values=["a", "b"], factor_names=["isA"]),
+         op("factor_column", column_name="code", factor_values=["1", "2"], factor_names=["one", "two"])),
+        ("map-entry-length", op("remap_columns", source_columns=["trial_type"], destination_columns=["kind"],
+                                map_list=[["a", "first"], ["b"]], ignore_missing=True),
+         op("remap_columns", source_columns=["trial_type"], destination_columns=["kind"],
+            map_list=[["a", "first"], ["b", "second"]], ignore_missing=True)),
+        ("anchor-in-match-columns", op("merge_consecutive", column_name="trial_type", event_code="a", set_durations=False,
+                                       ignore_missing=True, match_columns=["trial_type"]),
+         op("merge_consecutive", column_name="trial_type", event_code="a", set_durations=False, ignore_missing=True)),
+    ]
+    other = op("rename_columns", column_mapping={"code": "kode"}, ignore_missing=True)
+    for kind, bad, good in data_faults:
+        if v.validate([copy.deepcopy(good)]):
+            rec.violation("C17:harness-parameter-set-refused", op=good)
+            continue
+        for lst in ([bad], [other, bad], [bad, other], [bad, good], [good, bad], [bad, other, good], [good, other, bad],
+                    [good, bad, good]):
+            lst = copy.deepcopy(lst)
+            rec.n("evaluations")
+            rec.n("distinct_nontrivial")
+            try:
+                msgs = v.validate(lst)
+            except Exception as e:
+                rec.violation(f"C17:validator-raises:{type(e).__name__}:{kind}", ops=lst, error=repr(e)[:200])
+                continue
+            if not msgs:
+                pos = [o is not None and o == bad for o in lst].index(True)
+                rec.violation(f"C17:invalid-list-accepted:{bad['operation']}:{kind}", ops=lst, faulty_position=pos,
+                              list_length=len(lst))
+            rec.outcome("invalid-reported")
     for lst in ([], {}, "text", [7]):
         try:
             if not v.validate(lst):
